@@ -160,7 +160,7 @@ type channel struct {
 	untilWrite     bool
 	closed         int32
 	running        int32
-	closeErr       error
+	closeErr       atomic.Value
 	writeLock      sync.Mutex // for sync write
 }
 
@@ -174,7 +174,7 @@ func (c *channel) Write(message Message) error {
 	if !c.IsActive() {
 		select {
 		case <-c.ctx.Done():
-			return c.closeErr
+			return c.loadCloseErr()
 		}
 	}
 
@@ -206,7 +206,7 @@ func (c *channel) Close(err error) {
 			}
 		}
 
-		c.closeErr = err
+		c.closeErr.Store(closeError{err})
 		c.transport.Close()
 		c.cancel()
 
@@ -216,10 +216,21 @@ func (c *channel) Close(err error) {
 	}
 }
 
+// closeError boxes the close error: an atomic.Value can hold neither nil nor values of differing types.
+type closeError struct{ err error }
+
+// loadCloseErr returns the error stored by Close, nil while the channel is open (or closed with nil).
+func (c *channel) loadCloseErr() error {
+	if ce, ok := c.closeErr.Load().(closeError); ok {
+		return ce.err
+	}
+	return nil
+}
+
 // Writev to write [][]byte for optimize syscall
 func (c *channel) Writev(p [][]byte) (n int64, err error) {
-	if nil != c.closeErr {
-		return 0, c.closeErr
+	if err = c.loadCloseErr(); nil != err {
+		return 0, err
 	}
 
 	// enable async write
@@ -298,8 +309,8 @@ func (c *channel) CtxWritev(ctx context.Context, pv [][]byte) (n int64, err erro
 // ReadFrom reads data from r until EOF or error.
 // The return value n is the number of bytes read.
 func (c *channel) ReadFrom(r io.Reader) (n int64, err error) {
-	if nil != c.closeErr {
-		return 0, c.closeErr
+	if err = c.loadCloseErr(); nil != err {
+		return 0, err
 	}
 
 	const MinRead = 1024
@@ -340,8 +351,8 @@ func (c *channel) Writer() io.Writer {
 }
 
 func (c *channel) write1(p []byte, clone bool) (n int, err error) {
-	if nil != c.closeErr {
-		return 0, c.closeErr
+	if err = c.loadCloseErr(); nil != err {
+		return 0, err
 	}
 
 	// enable async write
@@ -382,7 +393,7 @@ func (c *channel) asyncWrite(ctx context.Context, p []byte, clone bool) (int64, 
 		case <-ctx.Done():
 			return 0, ctx.Err()
 		case <-c.ctx.Done():
-			return 0, c.closeErr
+			return 0, c.loadCloseErr()
 		case c.writeQueue <- packet:
 			// write queue
 		}
@@ -391,7 +402,7 @@ func (c *channel) asyncWrite(ctx context.Context, p []byte, clone bool) (int64, 
 		case <-ctx.Done():
 			return 0, ctx.Err()
 		case <-c.ctx.Done():
-			return 0, c.closeErr
+			return 0, c.loadCloseErr()
 		case c.writeQueue <- packet:
 			// write queue
 		default:
@@ -431,7 +442,7 @@ func (c *channel) asyncWritev(ctx context.Context, p [][]byte) (int64, error) {
 		case <-ctx.Done():
 			return 0, ctx.Err()
 		case <-c.ctx.Done():
-			return 0, c.closeErr
+			return 0, c.loadCloseErr()
 		case c.writeQueue <- packet:
 			// write queue
 		}
@@ -440,7 +451,7 @@ func (c *channel) asyncWritev(ctx context.Context, p [][]byte) (int64, error) {
 		case <-ctx.Done():
 			return 0, ctx.Err()
 		case <-c.ctx.Done():
-			return 0, c.closeErr
+			return 0, c.loadCloseErr()
 		case c.writeQueue <- packet:
 			// write queue
 		default:
